@@ -92,7 +92,11 @@ func (mo *monitors) judgeCommit(ev commitEvent) {
 	// (a) the certificate the node itself holds
 	pow, nSigners, bad := mo.certPower(set, ev.h, ev.round, ev.hash, ev.proof.Proofs[ev.hash])
 	detail["claimed_valid_power"], detail["claimed_valid_signers"], detail["claimed_invalid_sigs"] = pow, nSigners, bad
-	if !exceedsTwoThirds(pow, set.total) {
+	// For an accepted replay the proof in the message is only part of what the node
+	// holds (it is merged with the precommits already in the view), so clause (a) is
+	// judged on the SaveCommittedHeader / CommittingView events the replay causes,
+	// and the replay response itself only by the delivered-signature ledger (b).
+	if ev.source != "ReplayedHeaderResponse" && !exceedsTwoThirds(pow, set.total) {
 		mo.cs.violate("C01", "C01:commit-without-valid-certificate:"+ev.source,
 			fmt.Sprintf("%s: height %d round %d hash %x committed; the certificate held verifies for power %d of %d under the prescribed validator set (needs > 2/3)", ev.source, ev.h, ev.round, ev.hash, pow, set.total), detail)
 	}
